@@ -504,7 +504,14 @@ func RunC09(t *testing.T, tape *Tape) *Outcome {
 		if tk.Client || !(strings.HasPrefix(tk.Name, "c0.") || strings.HasPrefix(tk.Name, "c1.")) || (r.TasksAtReturn > 0 && tk.idx >= r.TasksAtReturn) || !contains(res.Left, tk.Name) || r.BudgetHit {
 			continue
 		}
-		o.addV("C09", "I5", fmt.Sprintf("I5 goroutine-not-exited phase=%s body=%s", phase, kindOf(tk)),
+		sig := fmt.Sprintf("I5 goroutine-not-exited phase=%s body=%s", phase, kindOf(tk))
+		if bodyOf[tk.idx] == "recv-in-literal" && entry == 1 {
+			// (listed finding: literals compiled by Compile before the interpreter's
+			// first cancellable evaluation keep non-cancellable channel operations;
+			// whatever the phase the cancellation fell in)
+			sig = "I5 goroutine-not-exited body=recv-in-literal entry=compile+execute"
+		}
+		o.addV("C09", "I5", sig,
 			"task %s (%s) never exited after the cancellation (state at end: %s)", tk.Name, kindOf(tk), r.describeTask(tk))
 	}
 	// I8: the concurrent evaluation under the same context
